@@ -503,9 +503,9 @@ fn session(ctx: &mut Ctx, r: &mut Rng, small: bool, cache: CacheMode) -> (Vec<Va
 fn run_case(ctx: &mut Ctx, id: u64) {
     let mut r = ctx.case_rng(id);
     let small = id < 8 || r.chance(1, 2);
-    // refusal must leave no trace in the replica's node cache either: a third of the sessions
-    // each run with the replica's cache off, default and tiny
-    let cache = [CacheMode::None, CacheMode::Default, CacheMode::Tiny][(id % 3) as usize];
+    // refusal must leave no trace in the replica's node cache either: a quarter of the sessions
+    // each run with the replica's cache off, default, tiny and volatile
+    let cache = ops::CACHE_MODES[(id % 4) as usize];
     let (script, res) = session(ctx, &mut r, small, cache);
     ctx.count("sessions");
     ctx.count(&format!("session_cache:{cache:?}"));
